@@ -223,3 +223,24 @@ PROPS = {
         assumptions=["an IPv4-mapped 16-byte address is not an IPv6 hint (net.IPNet.Contains treats it as IPv4)"],
     ),
 }
+
+
+# how each engine generates cases and what makes a history non-trivial (for the evidence files)
+RULES = {
+    "ipcalc": "128-bit operands biased to carry/borrow patterns, every p in 0..128, n near 2^k / 2^unit / 2^64-1; one case per line; trivial = Offset giving 0 or AddPrefixes with n=0",
+    "alloc6": "histories (one pool each) of Allocate with hints {none, length-only, in-pool free/taken anywhere inside the block, held, freed earlier, outside below/above, IPv4 forms, odd masks} and Free of {outstanding, sub-prefix, freed before, any block, k blocks below the base, above the end, random}; pools on both sides of the 64-bit boundary; trivial = only hint-less successful allocations",
+    "alloc4": "histories (one range each; sizes 1,2,3,63,64,65,127..200, ranges ending at 255.255.255.255 / starting at 0.0.0.0, the full range judged by the monitors alone) of Allocate with hints {none, in range (4- and 16-byte forms), freed earlier, outside, IPv6} and Free likewise; trivial = only hint-less successful allocations",
+    "range": "histories (one sqlite file each) of DISCOVER/REQUEST from hardware addresses of length 0..16 (mostly 6) with odd hostnames, restarts on a copy of the database with probes (in some histories after every request); trivial = set-up only",
+    "prefix": "histories (one pool each) of SOLICITs from 1..4 clients, 0..3 IA_PDs, 0..3 hints each from {::/0, length-only, own prefix, another client's, in-pool block (host bits, longer), out of pool, length>128, IPv4-mapped}, direct and relayed, through the wire; trivial = set-up only",
+    "file": "lease files from a line grammar (every MAC/IP spelling, comments, blank lines, duplicates, one of each malformation, CRLF, missing final newline), v4/v6/dual-stack set-ups in both orders, rewrites under autorefresh, queries; trivial = only unlisted clients",
+    "dispatch4": "datagrams built from the library types then mutated (truncation, bit flips, garbage, trailing bytes): all opcodes, message types 0..255/absent, giaddr/ciaddr kinds, broadcast flag, options 82/61; scripted handler chains of 0..5; bound/unbound listeners; trivial = unparsable datagram",
+    "dispatch6": "datagrams: all message types, client-id/rapid-commit presence, relay nesting 0..4 (thorough 0..32) with Relay-Reply layers and missing relay-message options, mutated; link-local/global sources; scripted chains; trivial = unparsable datagram",
+    "plugins": "configurations over synthetic registered plugins (dual, v4-only, v6-only, unsupported, unknown names, failing / nil-returning setups); trivial = both protocols unconfigured",
+    "plug": "per built-in plugin: argument vectors from valid, boundary and invalid values of each argument kind and wrong arity, each set up in a fresh process, followed by 6..15 requests (all request-list shapes incl. absent and empty, option 116/54/siaddr/server-id variants, OFFER/ACK/NAK, assigned/unassigned yiaddr, pre-existing options); trivial = a rejected configuration",
+    "config": "YAML documents from the configuration grammar (sections present or not, listen scalar/list/absent/non-scalar, every address/zone/port spelling, interface alias, plugin item shapes) plus mutated text; trivial = unreadable document",
+    "chain": "random subsets and orders of the real built-in plugins with valid arguments (fresh process per chain), 10..40 well-formed and mutated datagrams each; trivial = dropped datagram",
+    "allocc": "k goroutines allocating / freeing at once on nearly full pools; outcomes judged by linearisability search",
+    "rangec": "k concurrent DISCOVERs from new, known and duplicated clients on nearly exhausted ranges",
+    "prefixc": "3..8 concurrent SOLICITs with two hinted IA_PDs each racing for the last blocks",
+    "dispatch4c": "dispatch4 datagrams executed 16 at a time through the hook (shared receive-buffer pool)",
+}
